@@ -1,7 +1,6 @@
 package message
 
 import (
-	"bytes"
 	"encoding/binary"
 	"fmt"
 	"math"
@@ -447,8 +446,11 @@ func (rw *ReadWriter) Read(m *MessageRaw, isV2 bool) (Message, error) {
 		// in V2 buffer length can be > message or < message
 		// in this latter case it must be filled with zeros to support empty-byte de-truncation
 		// and extension fields
+		// the payload is copied in order not to write into the buffer of the caller
 		if len(payload) < int(rw.sizeExtended) {
-			payload = append(payload, bytes.Repeat([]byte{0x00}, int(rw.sizeExtended)-len(payload))...)
+			extended := make([]byte, rw.sizeExtended)
+			copy(extended, payload)
+			payload = extended
 		}
 	} else {
 		// in V1 buffer must fit message perfectly
